@@ -63,7 +63,7 @@ LEAF_KINDS = ('L1Norm', 'L2Norm', 'L2NormSquared', 'LpNorm', 'IndicatorLpUnitBal
               'proximal_convex_conj_l1', 'proximal_convex_conj_l2', 'proximal_convex_conj_l2_squared',
               'proximal_convex_conj_l1_l2', 'proximal_convex_conj_kl',
               'proximal_convex_conj_kl_cross_entropy')
-EXPECTED_BRANCHES = (['steps/{}/{}'.format(f, n) for f in ('list', 'tuple', 'array')
+EXPECTED_BRANCHES_BASE = (['steps/{}/{}'.format(f, n) for f in ('list', 'tuple', 'array')
                       for n in ('sep', 'lscale', 'rscale', 'trans', 'lscale-int', 'lscale-np')] +
                      ['steps/elements/sep', 'steps/elements/lscale', 'steps/elements/rscale',
                       'steps/elements/trans', 'sigma/float', 'sigma/pointwise',
@@ -72,6 +72,10 @@ EXPECTED_BRANCHES = (['steps/{}/{}'.format(f, n) for f in ('list', 'tuple', 'arr
                      ['{}/{}'.format(st, kd) for st in ('convention/out', 'convention/aliased',
                                                         'history/same-instance')
                       for kd in LEAF_KINDS + NODE_KINDS])
+
+
+def EXPECTED_BRANCHES_ALL(ctx):
+    return list(EXPECTED_BRANCHES_BASE) + direct_branches()
 MODEL_TOKENS = {'l1', 'l1l2', 'l2', 'l2sq', 'ccl1', 'ccl1l2', 'ccl2sq', 'box', 'const', 'izero', 'linf',
                 'cclinf', 'simplex', 'sumc', 'huber', 'huberg', 'klcc', 'trans', 'argscale', 'lscale', 'quad',
                 'conj', 'sep', 'nil', 'comp'}
@@ -253,6 +257,205 @@ def box_eval(lo, hi):
     return ev
 
 
+SCALAR_KINDS = ('int', 'float', 'npint', 'npfloat', 'np32', '0d')
+ARRAY_KINDS = ('list_int', 'list_float', 'tuple', 'int32', 'int64', 'float32', 'float64', 'element')
+
+
+def mk_arg(kind, value, sp):
+    """A Python object of the requested kind holding `value` (a number or a flat list)."""
+    if kind == 'int':
+        return int(value)
+    if kind == 'float':
+        return float(value)
+    if kind == 'npint':
+        return np.int64(value)
+    if kind == 'npfloat':
+        return np.float64(value)
+    if kind == 'np32':
+        return np.float32(value)
+    if kind == '0d':
+        return np.array(float(value))
+    shape = sp.shape
+    if kind == 'list_int':
+        return np.array(value, dtype=int).reshape(shape).tolist()
+    if kind == 'list_float':
+        return np.array(value, dtype=float).reshape(shape).tolist()
+    if kind == 'tuple':
+        lst = np.array(value, dtype=float).reshape(shape).tolist()
+        return tuple(tuple(r) if isinstance(r, list) else r for r in lst)
+    if kind in ('int32', 'int64', 'float32', 'float64'):
+        return np.array(value, dtype=kind).reshape(shape)
+    if kind == 'element':
+        return unflat(sp, value)
+    raise KeyError(kind)
+
+
+def build_direct(spec):
+    """['direct', group, skey, kind, params]: a public factory / calculus rule of
+    proximal_operators.py called directly with ONE argument given as the named Python/NumPy kind
+    (the value itself is integer- or dyadic-valued, so every kind holds exactly the same number).
+    The functional for the oracle is composed from real functionals with float arguments."""
+    import odl
+    import odl.solvers.functional.default_functionals as S
+    import odl.solvers.nonsmooth.proximal_operators as PO
+    _, group, skey, kind, prm = spec
+    sp = zoo()[skey]
+    n = fsize(sp)
+    lab = 'direct:{}({})'.format(group, kind)
+    inner_name = prm.get('inner')
+
+    def inner_case():
+        return build({'L1Norm': ['L1Norm', skey], 'L2NormSquared': ['L2NormSquared', skey],
+                      'transL1': ['trans', prm['y'], ['L1Norm', skey]],
+                      'box': ['IndicatorBox', skey, -0.5, 1.25],
+                      'Huber': ['Huber', skey, 0.5]}[inner_name])
+    sig_fixed = None
+    tree = None
+    ind = False
+    vec = False
+    if group == 'arg_scaling':
+        sub = inner_case()
+        val = prm['scaling']
+        obj = mk_arg(kind, val, sp)
+        factory = PO.proximal_arg_scaling(sub.fobj.proximal, obj)
+        if kind in SCALAR_KINDS:
+            fe = lambda z: sub.feval(float(val) * z)  # noqa
+            tree = None if sub.tree is None else ['argscale', fs(float(val))] + sub.tree
+        else:
+            se = unflat(sp, val)
+            fe = lambda z: sub.feval(se * z)  # noqa
+        ind = sub.indicator
+        lab = 'direct:arg_scaling[{}]({})'.format(inner_name, kind)
+    elif group in ('sigma_l1', 'sigma_l2sq', 'sigma_ccl1', 'sigma_ccl2sq', 'sigma_quad', 'sigma_cc'):
+        lam = 2.0
+        if group == 'sigma_l1':
+            c = build(['proximal_l1', skey, lam, prm.get('g')])
+        elif group == 'sigma_l2sq':
+            c = build(['proximal_l2_squared', skey, lam, prm.get('g')])
+        elif group == 'sigma_ccl1':
+            c = build(['proximal_convex_conj_l1', skey, lam, None])
+        elif group == 'sigma_ccl2sq':
+            c = build(['proximal_convex_conj_l2_squared', skey, lam, prm.get('g')])
+        elif group == 'sigma_quad':
+            sub = build(['L1Norm', skey])
+            u = unflat(sp, prm['u'])
+            fq = PO.proximal_quadratic_perturbation(sub.fobj.proximal, 1.5, u)
+            c = Case('', skey, lambda sg: fq(sg), lambda z: sub.feval(z) + 1.5 * z.inner(z) + z.inner(u),
+                     None)
+        else:
+            sub = build(['L1Norm', skey]) if inner_name == 'L1Norm' else build(['L2NormSquared', skey])
+            fc = PO.proximal_convex_conj(sub.fobj.proximal)
+            conj = S.IndicatorLpUnitBall(sp, np.inf) if inner_name == 'L1Norm' else \
+                0.25 * S.L2NormSquared(sp)
+            c = Case('', skey, lambda sg: fc(sg), lambda z: conj(z), None,
+                     indicator=inner_name == 'L1Norm')
+        factory, fe, tree, ind = c.factory, c.feval, c.tree, c.indicator
+        val = prm['sigma']
+        sig_fixed = ('argtype', val, mk_arg(kind, val, sp))
+        lab = 'direct:{}({})'.format(group, kind)
+    elif group == 'box':
+        lo, hi = prm.get('lower'), prm.get('upper')
+        which = 'lower' if prm['typed'] == 'lower' else 'upper'
+        args = {'lower': lo, 'upper': hi}
+        args[which] = mk_arg(kind, args[which], sp)
+        factory = PO.proximal_box_constraint(sp, lower=args['lower'], upper=args['upper'])
+        fe = box_eval(lo, hi)
+        tree, ind = ['box', _bvec(n, lo), _bvec(n, hi)], True
+    elif group in ('lam_l1', 'lam_l2', 'lam_l2sq', 'lam_ccl1', 'lam_ccl2sq', 'lam_cckl'):
+        fac = {'lam_l1': 'proximal_l1', 'lam_l2': 'proximal_l2', 'lam_l2sq': 'proximal_l2_squared',
+               'lam_ccl1': 'proximal_convex_conj_l1', 'lam_ccl2sq': 'proximal_convex_conj_l2_squared',
+               'lam_cckl': 'proximal_convex_conj_kl'}[group]
+        c = build([fac, skey, float(prm['lam']), None])
+        real = getattr(PO, fac)(sp, lam=mk_arg(kind, prm['lam'], sp))
+        factory, fe, tree, ind, vec = (lambda sg: real(sg)), c.feval, c.tree, c.indicator, False
+    elif group == 'gamma_huber':
+        c = build(['Huber', skey, float(prm['gamma'])])
+        real = PO.proximal_huber(sp, mk_arg(kind, prm['gamma'], sp))
+        factory, fe, tree = (lambda sg: real(sg)), c.feval, c.tree
+    elif group == 'a_quad':
+        sub = build(['L1Norm', skey])
+        a = float(prm['a'])
+        real = PO.proximal_quadratic_perturbation(sub.fobj.proximal, mk_arg(kind, prm['a'], sp))
+        factory = lambda sg: real(sg)  # noqa
+        fe = lambda z: sub.feval(z) + a * z.inner(z)  # noqa
+        tree = ['quad', fs(a), fl([0.0] * n)] + sub.tree
+    elif group == 'mu_comp':
+        sub = build(['L1Norm', skey])
+        mat = np.asarray(prm['mat'], dtype=float)
+        L = odl.MatrixOperator(mat, domain=sp, range=sp)
+        real = PO.proximal_composition(sub.fobj.proximal, L, mk_arg(kind, prm['mu'], sp))
+        factory = lambda sg: real(sg)  # noqa
+        fcomp = sub.fobj * L
+        fe = lambda z: fcomp(z)  # noqa
+        tree = ['comp', fs(float(prm['mu'])), core.fmat(mat.tolist())] + sub.tree
+    else:
+        raise KeyError(group)
+    case = Case(lab, skey, factory, fe, tree, indicator=ind, vec_sigma=vec, leaves=(lab,))
+    case.sig_fixed = sig_fixed
+    case.argtype = 'argtype/{}/{}'.format(group, kind)
+    return case
+
+
+def direct_specs(rng, quick):
+    """Argument-TYPE strata of the public factories / calculus rules called directly."""
+    out = []
+    keys = [rng.choice(['rn3', 'discr4_cell0.25'])] if quick else ['rn3', 'discr4_cell0.25']
+    for k in keys:
+        n = fsize(zoo()[k])
+        ints = [rng.choice([2, -3, 4, -2, 3]) for _ in range(n)]
+        ints[rng.randrange(n)] = 1
+        pos = [rng.choice([1, 2, 3, 4]) for _ in range(n)]
+        y = dvec(rng, n, -8, 8)
+        for inner in ('L1Norm', 'L2NormSquared', 'transL1', 'box'):
+            for kind in ARRAY_KINDS:
+                # float32 holds 1/3 only to 6e-8: exactly invertible entries for that kind
+                sc = [(2 if abs(v) > 1 else 1) * (1 if v > 0 else -1) * (2 if abs(v) > 2 else 1)
+                      for v in ints] if kind == 'float32' else ints
+                out.append(['direct', 'arg_scaling', k, kind, {'inner': inner, 'scaling': sc, 'y': y}])
+            for kind in SCALAR_KINDS:
+                out.append(['direct', 'arg_scaling', k, kind,
+                            {'inner': inner, 'scaling': rng.choice([2, -3, -2, 4]), 'y': y}])
+        g = dvec(rng, n, -8, 8)
+        for grp, extra in (('sigma_l1', {'g': g}), ('sigma_l2sq', {'g': g}), ('sigma_ccl1', {}),
+                           ('sigma_ccl2sq', {'g': g}), ('sigma_quad', {'u': dvec(rng, n, -8, 8)}),
+                           ('sigma_cc', {'inner': 'L1Norm'}), ('sigma_cc', {'inner': 'L2NormSquared'})):
+            for kind in ARRAY_KINDS:
+                # float32 steps: exactly invertible values (1/3 is held to 6e-8 only)
+                sv = [{3: 4}.get(v, v) for v in pos] if kind == 'float32' else pos
+                out.append(['direct', grp, k, kind, dict(extra, sigma=sv)])
+            for kind in ('int', 'npint', 'npfloat', 'np32'):
+                out.append(['direct', grp, k, kind, dict(extra, sigma=rng.choice([1, 2, 3]))])
+        lo = [rng.choice([-2, -1, 0]) for _ in range(n)]
+        hi = [l + rng.choice([0, 1, 3]) for l in lo]
+        for kind in ARRAY_KINDS:
+            out.append(['direct', 'box', k, kind, {'lower': lo, 'upper': hi, 'typed': 'lower'}])
+            out.append(['direct', 'box', k, kind, {'lower': lo, 'upper': hi, 'typed': 'upper'}])
+        for kind in ('int', 'float', 'npint', 'npfloat', 'np32'):
+            out.append(['direct', 'box', k, kind, {'lower': -1, 'upper': 2, 'typed': 'lower'}])
+            out.append(['direct', 'box', k, kind, {'lower': None, 'upper': 1, 'typed': 'upper'}])
+        for kind in SCALAR_KINDS:
+            for grp in ('lam_l1', 'lam_l2', 'lam_l2sq', 'lam_ccl1', 'lam_ccl2sq', 'lam_cckl'):
+                out.append(['direct', grp, k, kind, {'lam': rng.choice([2, 3, 4])}])
+            out.append(['direct', 'gamma_huber', k, kind, {'gamma': rng.choice([1, 2])}])
+            out.append(['direct', 'a_quad', k, kind, {'a': rng.choice([1, 4])}])
+    for kind in SCALAR_KINDS:
+        out.append(['direct', 'mu_comp', 'rn2', kind, {'mat': [[0.0, 2.0], [-2.0, 0.0]], 'mu': 4}])
+    return out
+
+
+def direct_branches():
+    out = []
+    for kind in ARRAY_KINDS + SCALAR_KINDS:
+        out.append('argtype/arg_scaling/' + kind)
+    for grp in ('sigma_l1', 'sigma_l2sq', 'sigma_ccl1', 'sigma_ccl2sq', 'sigma_quad', 'sigma_cc'):
+        out += ['argtype/{}/{}'.format(grp, kd) for kd in ARRAY_KINDS + ('int', 'npint', 'npfloat', 'np32')]
+    out += ['argtype/box/' + kd for kd in ARRAY_KINDS + ('int', 'float', 'npint', 'npfloat', 'np32')]
+    for grp in ('lam_l1', 'lam_l2', 'lam_l2sq', 'lam_ccl1', 'lam_ccl2sq', 'lam_cckl', 'gamma_huber',
+                'a_quad', 'mu_comp'):
+        out += ['argtype/{}/{}'.format(grp, kd) for kd in SCALAR_KINDS]
+    return out
+
+
 def build(spec):
     """spec -> Case.  spec[0] is the kind; leaves carry the space key at spec[1]."""
     import odl
@@ -261,6 +464,8 @@ def build(spec):
     from odl.solvers.functional.functional import (FunctionalDefaultConvexConjugate,
                                                    FunctionalQuadraticPerturb)
     kind = spec[0]
+    if kind == 'direct':
+        return build_direct(spec)
     Z = zoo()
     eps = float(np.finfo(float).resolution * 10)
     lam_f = lambda lam: float(lam * (1 - eps))  # noqa  (fudged lam of the conj proximals)
@@ -746,6 +951,8 @@ FINITE_LEAVES = ('L1Norm', 'L2Norm', 'L2NormSquared', 'LpNorm', 'Huber', 'ZeroFu
 
 
 def leaf_of(spec):
+    if spec[0] == 'direct':
+        return ['direct:' + spec[1], spec[2]]
     while spec[0] in ('trans', 'rscale', 'rscale0', 'lscale', 'ssum', 'quad', 'bregman', 'dconj',
                       'comp'):
         spec = spec[2] if spec[0] == 'lscale' else spec[-1]
@@ -960,6 +1167,8 @@ def sigma_obj(case, sg, sk=None):
     """The step as passed to the real code.  For functionals on a separable-sum domain `sk`
     names the documented form of the per-summand steps: a list / tuple / numpy array of floats,
     or a list of point-wise step elements (one per summand)."""
+    if getattr(case, 'sig_fixed', None) is not None:
+        return case.sig_fixed[2]
     if np.isscalar(sg):
         return sg
     if case.list_sigma:
@@ -1362,6 +1571,12 @@ def iterate_cases(ctx, specs, deep=False, per_spec_sigmas=None):
         exact_space = case.skey in FLAT_EXACT or case.skey in PRODUCT or case.skey in MATRIX \
             or case.skey.startswith('sep(')
         sigs = sigma_choices(case, rng, exact_space)
+        if getattr(case, 'sig_fixed', None) is not None:
+            v = case.sig_fixed[1]
+            sigs = [('float' if np.isscalar(v) else 'pointwise', float(v) if np.isscalar(v)
+                     else [float(t) for t in v])] * 2
+        elif spec[0] == 'direct':
+            sigs = [('float', rng.choice([0.5, 1.0, 2.0]))] * 2
         if per_spec_sigmas:
             sigs = sigs[:per_spec_sigmas]
         if ctx.quick and not deep:
@@ -1373,7 +1588,9 @@ def iterate_cases(ctx, specs, deep=False, per_spec_sigmas=None):
             sigs = [sigs[rng.randrange(2)]] + rest
         for sk, sg in sigs:
             xs = x_choices(case, rng, sg, exact_space)
-            if ctx.quick and not deep:
+            if spec[0] == 'direct':
+                xs = [xs[0]] if not deep else xs[:2]
+            elif ctx.quick and not deep:
                 xs = [xs[0], rng.choice(xs[1:]), rng.choice(xs[2:])]
             elif not deep:
                 xs = xs[:2] + rng.sample(xs[2:], 2)
@@ -1387,6 +1604,7 @@ def run(ctx, deep=False):
     found, missing = introspect(ctx)
     specs = leaf_specs(rng, ctx.quick)
     specs += tree_specs(rng, 120 if ctx.quick else 400)
+    specs += direct_specs(rng, ctx.quick)
     recs, lines = [], []
     seen_labels = set()
     for case, sk, sg, xc, xlist in iterate_cases(ctx, specs, deep=deep):
@@ -1404,6 +1622,8 @@ def run(ctx, deep=False):
             ctx.hit('functional/' + lf)
         ctx.hit('space/' + (case.skey if not case.skey.startswith('sep(') else 'separable-sum'))
         ctx.hit('sigma/' + sk)
+        if getattr(case, 'argtype', None):
+            ctx.hit(case.argtype)
         kinds = set([leaf_of(case.spec)[0]] + [l for l in case.leaves if l in NODE_KINDS]) \
             if case.spec[0] != 'sep' else set(['sep'] + [leaf_of(sp_)[0] for sp_ in case.spec[1]])
         for kd in kinds:
@@ -1560,3 +1780,6 @@ def replay(ctx, case):
         if not probs:
             return None
     return '; '.join('{}: {}'.format(a, b) for a, b in probs)
+
+
+EXPECTED_BRANCHES = EXPECTED_BRANCHES_ALL
